@@ -39,6 +39,7 @@ struct State {
   bool comp = false;
   bool bld = false;       // plain Builder (node formatting)
   unsigned pad0 = 0;
+  unsigned pos = 0;        // position given to the next node (`pos <n>`)
   FormatFlags flags = FormatFlags::kNone;
   std::unique_ptr<CodeHolder> code;
   std::unique_ptr<BaseEmitter> emitter;
@@ -243,6 +244,7 @@ static std::string step(const std::string& line) {
     S.comp = w[2] == "comp";
     S.bld = w[2] == "bld";
     S.pad0 = 0;
+    S.pos = 0;
     S.flags = FormatFlags::kNone;
     Environment env(arch);
     if (S.code->init(env) != Error::kOk) return "err init";
@@ -386,9 +388,14 @@ static std::string step(const std::string& line) {
     if (e != Error::kOk) return std::string("err ") + DebugUtils::error_as_string(e);
     return text_out(sb);
   }
+  if (w[0] == "pos") {
+    if (w.size() != 2 || !vh::parse_u64(w[1], a) || a > 0xFFFFFFFFu) return "bad-op";
+    S.pos = unsigned(a);
+    return "ok";
+  }
   if (w[0] == "node" || w[0] == "nodelist") {
     // Builder nodes: create the node with the real BaseBuilder API and format it with Formatter::format_node (or the whole list)
-    if (!S.bld) return "bad-op";
+    if (!S.bld && !S.comp) return "bad-op";
     BaseBuilder* bb = static_cast<BaseBuilder*>(S.emitter.get());
     FormatOptions fo;
     fo.set_flags(S.flags);
@@ -427,8 +434,11 @@ static std::string step(const std::string& line) {
       std::string cs(cb.begin(), cb.end());
       e = bb->comment(cs.c_str(), cs.size());
     }
+    else if (w[1] == "elabel" && w.size() == 3 && vh::parse_u64(w[2], a)) e = bb->embed_label(Label(uint32_t(a)));
+    else if (w[1] == "edelta" && w.size() == 4 && vh::parse_u64(w[2], a) && vh::parse_u64(w[3], b)) e = bb->embed_label_delta(Label(uint32_t(a)), Label(uint32_t(b)), 4);
     else return "bad-op";
-    if (e != Error::kOk) { bb->reset_state(); return std::string("E ") + DebugUtils::error_as_string(e); }
+    if (e != Error::kOk) { bb->reset_state(); S.pos = 0; return std::string("E ") + DebugUtils::error_as_string(e); }
+    if (S.pos) { bb->cursor()->set_position(NodePosition(S.pos)); S.pos = 0; }
     String sb;
     e = Formatter::format_node(sb, fo, bb, bb->cursor());
     if (e != Error::kOk) return std::string("err ") + DebugUtils::error_as_string(e);
